@@ -31,7 +31,7 @@ def lines(repo, read, find, report):
         if b is None:
             return None
         loops = re.findall(r"for\s*\(\s*size_type\s+(\w)\s*=\s*0\s*;\s*\1\s*<\s*(rows|cols)\(\)", b)
-        st = re.search(r"yy\[(\w)\]\s*(\+=|-=)\s*(alpha\s*\*\s*)?(conjugateComplex\()?\(\*this\)\[(\w)\]\[(\w)\]\)?\s*\*\s*xx\[(\w)\]", b)
+        st = re.search(r"yy\[(\w)\]\s*(\+=|-=)\s*((?:alpha|a)\s*\*\s*)?(conjugateComplex\()?\(\*this\)\[(\w)\]\[(\w)\]\)?\s*\*\s*xx\[(\w)\]", b)
         if len(loops) != 2 or not st:
             return None
         (o, ob), (n, nb) = loops
@@ -48,7 +48,7 @@ def lines(repo, read, find, report):
             return None
         if name == "mtv" and re.search(r"\bmv\s*\(\s*x\s*,\s*y\s*\)", b):
             return diag("mv")                       # mtv forwards to mv
-        st = re.search(r"y\[i\]\s*(\+=|-=|=)\s*(alpha\s*\*\s*)?(conjugateComplex\()?diag_\[i\]\)?\s*\*\s*x\[i\]", b)
+        st = re.search(r"y\[i\]\s*(\+=|-=|=)\s*((?:alpha|a)\s*\*\s*)?(conjugateComplex\()?diag_\[i\]\)?\s*\*\s*x\[i\]", b)
         if not st or not re.search(r"for\s*\(\s*size_type\s+i\s*=\s*0\s*;\s*i\s*<\s*n\s*;", b):
             return None
         op, al, cj = st.groups()
